@@ -171,6 +171,23 @@ pub fn depth() -> u8 {
     DEPTH.load(std::sync::atomic::Ordering::Relaxed)
 }
 
+// Whether this process runs the crate with a logger installed at Trace level (the second
+// profile does; like the depth it is handed to every child and stored in replay files).
+static LOG_ON: std::sync::atomic::AtomicBool = std::sync::atomic::AtomicBool::new(false);
+pub fn set_log_on(on: bool) {
+    LOG_ON.store(on, std::sync::atomic::Ordering::Relaxed);
+}
+pub fn log_on() -> bool {
+    LOG_ON.load(std::sync::atomic::Ordering::Relaxed)
+}
+/// Arguments that make a child process run in the same configuration as this one.
+pub fn config_args(cmd: &mut std::process::Command) {
+    cmd.arg("--depth").arg(depth().to_string());
+    if log_on() {
+        cmd.arg("--log-on").arg("1");
+    }
+}
+
 // ---------------------------------------------------------------------------
 // Panic capture. The executor notes where it is before every call into the
 // crate; the hook stores the message; nothing is printed.
@@ -581,7 +598,8 @@ pub fn run_batch<W: World>(cfg: &BatchCfg) -> Result<BatchResult, String> {
             wait_one(&mut running, &mut failed);
         }
         let mut cmd = child_command(&exe);
-        cmd.arg("lane").arg("--prop").arg(&cfg.prop).arg("--seed").arg(cfg.base_seed.to_string()).arg("--runs").arg(cfg.runs.to_string()).arg("--lane").arg(lane.to_string()).arg("--lanes").arg(lanes.to_string()).arg("--values-runs").arg(cfg.values_runs.to_string()).arg("--depth").arg(depth().to_string()).arg("--out").arg(dir.join(format!("lane-{}.bin", lane)));
+        cmd.arg("lane").arg("--prop").arg(&cfg.prop).arg("--seed").arg(cfg.base_seed.to_string()).arg("--runs").arg(cfg.runs.to_string()).arg("--lane").arg(lane.to_string()).arg("--lanes").arg(lanes.to_string()).arg("--values-runs").arg(cfg.values_runs.to_string()).arg("--out").arg(dir.join(format!("lane-{}.bin", lane)));
+        config_args(&mut cmd);
         if cfg.keep_run_digests {
             cmd.arg("--keep-run-digests");
         }
